@@ -1,14 +1,16 @@
 (* Cost.v -- resource model for property C05 ("any input terminates in bounded time and
-   memory"): what the header parser (Header.v) and the two decompress loops (Decomp.v,
-   Worker.decompress py7zr.py l.1492-1506 and Header._read archiveinfo.py l.950-954) can be
-   made to do by the counts an archive DECLARES, as opposed to the bytes it CONTAINS.
+   memory"): what the header parser (Header.v) and the two decompress loops
+   (Worker.decompress py7zr.py l.1545-1572, Header._read archiveinfo.py l.981-995) can be made to
+   do by the counts an archive DECLARES, as opposed to the bytes it CONTAINS.
 
-   Part 1 "Model": iteration counts of the loops of the Python whose trip count is a declared
-     number (PackInfo.packpositions l.270, Folder._read packed_indices l.388-391,
-     read_utf16 l.205-213, SevenZipFile._read_digest py7zr.py l.792-800), the encoded-header
-     loop, size of the object graph the parser allocates, dispatcher.
-   Part 2 "Proofs" (independent of the internals of the header parser): super-linear step counts;
-     termination of the decompress loops under a progress contract, non-termination without it.
+   Part 1 "Model": iteration counts of the loops of the Python that walk a declared number
+     (PackInfo.packpositions, Folder._read packed_indices, read_utf16, SevenZipFile._read_digest),
+     the two decompress loops WITH their stall guard (at most 16 rounds in a row that deliver
+     nothing and take no input; Decomp.worker_decompress is the loop without the guard, as it was),
+     size of the object graph the parser allocates, dispatcher.
+   Part 2 "Proofs" (independent of the internals of the header parser): the step counts are linear;
+     the guarded loops end after a number of rounds linear in the declared size and the file size,
+     whatever the decoder stages do.
    The proofs about the header parser itself (readers consume, resource answers, size of the
    object graph) are in CostProofs.v.
    stdlib only; no axioms. *)
@@ -21,94 +23,132 @@ Open Scope Z_scope.
 (*                              PART 1 : MODEL                           *)
 (* ===================================================================== *)
 
-(* ---- PackInfo._read l.270 ---------------------------------------------
-   self.packpositions = [sum(self.packsizes[:i]) for i in range(self.numstreams + 1)]
-   One list element per i; the slice copies min(i, len(packsizes)) elements and sum()
-   walks them. *)
-Definition packpositions (sizes : list Z) (n : Z) : list Z :=
-  map (fun i => sumZ (takeZ i sizes)) (py_range 0 (n + 1)).
-
-Fixpoint tri_steps (k : nat) (nsizes : Z) : Z :=
-  match k with
-  | O => 0
-  | S k' => tri_steps k' nsizes + 1 + Z.min (Z.of_nat k') (Z.max nsizes 0)
+(* ---- PackInfo._read --------------------------------------------------------
+   self.packpositions = [0]
+   for size in self.packsizes: self.packpositions.append(self.packpositions[-1] + size)
+   (numstreams plays no part any more) *)
+Fixpoint running_totals (acc : Z) (sizes : list Z) : list Z :=
+  match sizes with
+  | [] => [acc]
+  | s :: r => acc :: running_totals (acc + s) r
   end.
-(* number of list cells touched by the comprehension *)
-Definition packpositions_steps (nsizes n : Z) : Z := tri_steps (Z.to_nat (n + 1)) nsizes.
+Definition packpositions (sizes : list Z) : list Z := running_totals 0 sizes.
+(* list cells touched *)
+Definition packpositions_steps (nsizes : Z) : Z := Z.max nsizes 0 + 1.
 
-(* ---- Folder._read l.388-391 -------------------------------------------
-   for i in range(totalin): if self._find_in_bin_pair(i) < 0: packed_indices.append(i)
-   _find_in_bin_pair walks the bond list up to the first bond whose incoder is i. *)
-Fixpoint find_in_steps (bonds : list (Z * Z)) (i : Z) : Z :=
-  match bonds with
-  | [] => 0
-  | b :: r => if fst b =? i then 1 else 1 + find_in_steps r i
-  end.
-Definition packed_indices_steps (bonds : list (Z * Z)) (totalin : Z) : Z :=
-  sumZ (map (find_in_steps bonds) (py_range 0 totalin)).
+(* ---- Folder._read ------------------------------------------------------------
+   bound_inputs = {bond.incoder for bond in self.bindpairs}
+   for i in range(totalin): if i not in bound_inputs: packed_indices.append(i)
+   one read of every bond, then one set lookup per input stream *)
+Definition packed_indices_steps (bonds : list (Z * Z)) (totalin : Z) : Z := zlen bonds + Z.max totalin 0.
+Definition packed_indices (bonds : list (Z * Z)) (totalin : Z) : list Z :=
+  filter (fun i => negb (find_in_bond bonds i)) (py_range 0 totalin).
 
-(* ---- read_utf16 l.205-213 ----------------------------------------------
-   for _ in range(MAX_LENGTH): ch = file.read(2); if ch == b"\0\0": break; val += ch
-   At end of input read(2) returns b"" (which is not b"\0\0"): the loop goes on to
-   MAX_LENGTH = 65536 iterations. *)
-Fixpoint utf16_term_index (fuel : nat) (bs : bytes) : option Z :=
+(* ---- read_utf16 ---------------------------------------------------------------
+   for _ in range(MAX_LENGTH): ch = file.read(2); if ch == b"\0\0": break; val += ch; if len(ch) < 2: break
+   result: number of reads and what is left of the buffer *)
+Fixpoint utf16_scan (fuel : nat) (k : Z) (bs : bytes) : Z * bytes :=
   match fuel with
-  | O => None
-  | S f => match bs with
-           | 0 :: 0 :: _ => Some 0
-           | _ :: _ :: r => match utf16_term_index f r with Some j => Some (j + 1) | None => None end
-           | _ => None
+  | O => (k, bs)
+  | S f => if 65536 <=? k then (k, bs) else
+           match bs with
+           | [] => (k + 1, [])
+           | [_] => (k + 1, [])
+           | a :: b :: r => if (a =? 0) && (b =? 0) then (k + 1, r) else utf16_scan f (k + 1) r
            end
   end.
-Definition utf16_iters (bs : bytes) : Z :=
-  match utf16_term_index (S (length bs)) bs with
-  | Some j => if j <? 65536 then j + 1 else 65536
-  | None => 65536
-  end.
+Definition utf16_iters (bs : bytes) : Z := fst (utf16_scan (S (length bs)) 0 bs).
 (* FilesInfo._read_name: one read_utf16 per entry of self.files, all on the same buffer *)
 Fixpoint names_steps (n : nat) (bs : bytes) : Z :=
   match n with
   | O => 0
-  | S n' => utf16_iters bs +
-            match rd_utf16_raw (S (length bs)) 0 [] bs with
-            | Ok (_, r) => names_steps n' r
-            | Err _ => 0
-            end
+  | S n' => let '(k, r) := utf16_scan (S (length bs)) 0 bs in k + names_steps n' r
   end.
 
-(* ---- SevenZipFile._read_digest py7zr.py l.792-800 ------------------------
-   while remaining_size > 0: block = min(block_size, remaining_size); read(block); remaining_size -= block
-   The trip count depends on the declared pack size only, not on what read() returns. *)
-Definition read_digest_iters (size blocksize : Z) : Z :=
-  if size <=? 0 then 0 else if blocksize <=? 0 then -1 (* never ends *) else (size + blocksize - 1) / blocksize.
+(* ---- SevenZipFile._read_digest --------------------------------------------------
+   while remaining_size > 0: block = min(block_size, remaining_size); data = read(block)
+                             if len(data) == 0: break; remaining_size -= block
+   number of read() calls on a file of which `avail` bytes are left (block_size > 0) *)
+Fixpoint read_digest_reads (fuel : nat) (size bsz avail : Z) : Z :=
+  match fuel with
+  | O => 0
+  | S f => if size <=? 0 then 0 else
+           let block := Z.min bsz size in
+           let got := Z.min block (Z.max avail 0) in
+           if got <=? 0 then 1 else 1 + read_digest_reads f (size - block) bsz (avail - got)
+  end.
+Definition read_digest_iters (size bsz avail : Z) : Z :=
+  read_digest_reads (S (S (Z.to_nat avail))) size bsz avail.
 
-(* ---- Header._read l.950-954 ----------------------------------------------
-   remaining = uncompressed_size; folder_data = bytearray()
-   while remaining > 0:
-       folder_data += decompressor.decompress(fp, max_length=remaining)
-       remaining = uncompressed_size - len(folder_data)
-   fuel bounds the number of iterations; the Python loop has no such bound. *)
-Section HeaderLoop.
+(* ---- the two decompress loops, with the stall guard -------------------------------
+   Worker.decompress:
+     stalled = 0
+     while out_remaining > 0:
+         consumed_before = decompressor.consumed
+         tmp = decompressor.decompress(fp, min(out_remaining, max_block_size))
+         if len(tmp) > 0: stalled = 0; out_remaining -= len(tmp); write
+         elif decompressor.consumed == consumed_before:
+             stalled += 1
+             if stalled > MAX_STALLED_ROUNDS: raise Bad7zFile
+         if out_remaining <= 0: break
+   Header._read:
+     while remaining > 0:
+         consumed_before = ...; chunk = decompress(fp, max_length=remaining); folder_data += chunk
+         remaining = uncompressed_size - len(folder_data)
+         if len(chunk) == 0 and consumed == consumed_before: stalled += 1; if stalled > 16: raise Bad7zFile
+         else: stalled = 0
+   fuel bounds the number of rounds; theorem worker_guarded_terminates shows which fuel is always enough. *)
+Definition MAX_STALLED_ROUNDS : Z := 16.
+
+Section GuardedLoops.
   Variable stage_st : Type.
   Variable dstep : stage_st -> bytes -> Z -> stage_st * bytes.
 
-  Fixpoint header_loop (fuel : nat) (st : Decomp.dstate stage_st) (usize : Z) (acc : bytes)
+  Fixpoint worker_guarded (fuel : nat) (st : Decomp.dstate stage_st) (size max_block stalled : Z)
+           (sched : list nat) : res (Decomp.dstate stage_st * bytes) :=
+    if size >? 0 then
+      match fuel with
+      | O => Err EFuel
+      | S fuel' =>
+          do r <- Decomp.decompress dstep st (Z.min size max_block) (Decomp.sched_hd st sched);
+          let '(st', tmp) := r in
+          if Decomp.zlen tmp >? 0 then
+            if size - Decomp.zlen tmp <=? 0 then Ok (st', tmp)
+            else
+              do r' <- worker_guarded fuel' st' (size - Decomp.zlen tmp) max_block 0 (tl sched);
+              let '(st'', out) := r' in Ok (st'', tmp ++ out)
+          else if Decomp.consumed st' =? Decomp.consumed st then
+            if MAX_STALLED_ROUNDS <? stalled + 1 then Err EBad7z
+            else worker_guarded fuel' st' size max_block (stalled + 1) (tl sched)
+          else worker_guarded fuel' st' size max_block stalled (tl sched)
+      end
+    else Ok (st, []).
+
+  Fixpoint header_guarded (fuel : nat) (st : Decomp.dstate stage_st) (usize : Z) (acc : bytes) (stalled : Z)
            (sched : list nat) : res (Decomp.dstate stage_st * bytes) :=
     if usize - Decomp.zlen acc >? 0 then
       match fuel with
       | O => Err EFuel
       | S fuel' =>
           do r <- Decomp.decompress dstep st (usize - Decomp.zlen acc) (Decomp.sched_hd st sched);
-          let '(st', tmp) := r in
-          header_loop fuel' st' usize (acc ++ tmp) (tl sched)
+          let '(st', chunk) := r in
+          if (Decomp.zlen chunk =? 0) && (Decomp.consumed st' =? Decomp.consumed st) then
+            if MAX_STALLED_ROUNDS <? stalled + 1 then Err EBad7z
+            else header_guarded fuel' st' usize (acc ++ chunk) (stalled + 1) (tl sched)
+          else header_guarded fuel' st' usize (acc ++ chunk) 0 (tl sched)
       end
     else Ok (st, acc).
-End HeaderLoop.
-Arguments header_loop {stage_st}.
+End GuardedLoops.
+Arguments worker_guarded {stage_st}.
+Arguments header_guarded {stage_st}.
 
-Definition toy_header_loop (fuel : nat) (sts : list Decomp.toy_state) (us : list Z) (isz bsz : Z)
+Definition toy_worker_guarded (fuel : nat) (sts : list Decomp.toy_state) (us : list Z) (isz bsz : Z)
+           (packed : bytes) (size mb : Z) (sched : list nat) : res bytes :=
+  do r <- worker_guarded Decomp.toy_dstep fuel (Decomp.toy_init sts us isz bsz packed) size mb 0 sched;
+  Ok (snd r).
+Definition toy_header_guarded (fuel : nat) (sts : list Decomp.toy_state) (us : list Z) (isz bsz : Z)
            (packed : bytes) (usize : Z) (sched : list nat) : res bytes :=
-  do r <- header_loop Decomp.toy_dstep fuel (Decomp.toy_init sts us isz bsz packed) usize [] sched;
+  do r <- header_guarded Decomp.toy_dstep fuel (Decomp.toy_init sts us isz bsz packed) usize [] 0 sched;
   Ok (snd r).
 
 (* ---- size of the object graph the parser builds (number of list cells) ---- *)
@@ -117,8 +157,8 @@ Definition coder_size (c : coder) : Z :=
 Definition folder_size (f : folder) : Z :=
   1 + sumZ (map coder_size (f_coders f)) + zlen (f_bonds f) + zlen (f_packed f) + zlen (f_unpacksizes f).
 Definition pack_size (p : packinfo) : Z :=
-  (* packsizes, digestdefined, crcs, and packpositions (numstreams + 1 cells) *)
-  zlen (p_sizes p) + zlen (p_digestdefined p) + zlen (p_crcs p) + Z.max 0 (p_numstreams p + 1).
+  (* packsizes, digestdefined, crcs, and packpositions (one cell per pack size, plus one) *)
+  zlen (p_sizes p) + zlen (p_digestdefined p) + zlen (p_crcs p) + (zlen (p_sizes p) + 1).
 Definition sub_size (s : substreams) : Z :=
   zlen (s_nums s) + match s_sizes s with Some l => zlen l | None => 0 end
   + zlen (s_digestsdefined s) + zlen (s_digests s).
@@ -135,29 +175,37 @@ Definition header_size (h : header) : Z :=
 
 (* ---- dispatcher (numbers 420-439) ---------------------------------------- *)
 Definition of_pairs (t : tree) : list (Z * Z) := map (fun x => (of_TI (tnth x 0), of_TI (tnth x 1))) (of_TL t).
+Definition of_nats (t : tree) : list nat := map (fun x => Z.to_nat (of_TI x)) (of_TL t).
 
 Definition cost_dispatch (fn : Z) (a : tree) : tree :=
   match fn with
-  (* FN 420 packpositions : (sizes n) -> list int *)
-  | 420 => TL (map TI (packpositions (map of_TI (of_TL (tnth a 0))) (of_TI (tnth a 1))))
-  (* FN 421 packpositions_steps : (nsizes n) -> int *)
-  | 421 => TI (packpositions_steps (of_TI (tnth a 0)) (of_TI (tnth a 1)))
+  (* FN 420 packpositions : sizes -> list int *)
+  | 420 => TL (map TI (packpositions (map of_TI (of_TL a))))
+  (* FN 421 packpositions_steps : nsizes -> int *)
+  | 421 => TI (packpositions_steps (of_TI a))
   (* FN 422 utf16_iters : bytes -> int *)
   | 422 => TI (utf16_iters (of_bytes a))
   (* FN 423 names_steps : (n bytes) -> int *)
   | 423 => TI (names_steps (Z.to_nat (of_TI (tnth a 0))) (of_bytes (tnth a 1)))
-  (* FN 424 toy_worker : (fuel states unpacksizes input_size block_size packed size mb sched) -> res bytes *)
-  | 424 => Decomp.toy_worker_t a
-  (* FN 425 toy_header_loop : (fuel states unpacksizes input_size block_size packed usize sched) -> res bytes *)
+  (* FN 424 toy_worker_guarded : (fuel states unpacksizes input_size block_size packed size mb sched) -> res bytes *)
+  | 424 => t_res t_bytes
+             (toy_worker_guarded (Z.to_nat (of_TI (tnth a 0)))
+                (map Decomp.t_toy_state (of_TL (tnth a 1))) (map of_TI (of_TL (tnth a 2)))
+                (of_TI (tnth a 3)) (of_TI (tnth a 4)) (of_bytes (tnth a 5)) (of_TI (tnth a 6)) (of_TI (tnth a 7))
+                (of_nats (tnth a 8)))
+  (* FN 425 toy_header_guarded : (fuel states unpacksizes input_size block_size packed usize sched) -> res bytes *)
   | 425 => t_res t_bytes
-             (toy_header_loop (Z.to_nat (of_TI (tnth a 0)))
+             (toy_header_guarded (Z.to_nat (of_TI (tnth a 0)))
                 (map Decomp.t_toy_state (of_TL (tnth a 1))) (map of_TI (of_TL (tnth a 2)))
                 (of_TI (tnth a 3)) (of_TI (tnth a 4)) (of_bytes (tnth a 5)) (of_TI (tnth a 6))
-                (map (fun x => Z.to_nat (of_TI x)) (of_TL (tnth a 7))))
-  (* FN 426 packed_indices_steps : (bonds totalin) -> int *)
-  | 426 => TI (packed_indices_steps (of_pairs (tnth a 0)) (of_TI (tnth a 1)))
-  (* FN 427 read_digest_iters : (size blocksize) -> int *)
-  | 427 => TI (read_digest_iters (of_TI (tnth a 0)) (of_TI (tnth a 1)))
+                (of_nats (tnth a 7)))
+  (* FN 426 packed_indices : (bonds totalin) -> (steps (indices)) *)
+  | 426 => TL [TI (packed_indices_steps (of_pairs (tnth a 0)) (of_TI (tnth a 1)));
+               TL (map TI (packed_indices (of_pairs (tnth a 0)) (of_TI (tnth a 1))))]
+  (* FN 427 read_digest_iters : (size blocksize avail) -> int *)
+  | 427 => TI (read_digest_iters (of_TI (tnth a 0)) (of_TI (tnth a 1)) (of_TI (tnth a 2)))
+  (* FN 428 toy_worker_unguarded : as 424; the loop as it was before the guard (Decomp.worker_decompress) *)
+  | 428 => Decomp.toy_worker_t a
   (* FN 429 header_size_of : (lim bytes) -> res int *)
   | 429 => t_res TI (do h <- parse_header (of_TI (tnth a 0)) (of_bytes (tnth a 1)); Ok (header_size h))
   | _ => TL [TI (-2)]
@@ -199,100 +247,86 @@ Proof.
   cbn [app]. rewrite !sumZ_cons, IH. lia.
 Qed.
 
-(* ---- C1. loops whose trip count is a declared number ----------------------- *)
 
-Lemma tri_steps_closed k m :
-  0 <= m -> Z.of_nat k <= m + 1 -> 2 * tri_steps k m = Z.of_nat k * (Z.of_nat k + 1).
+(* ---- C1. the loops that walk a declared number are linear in what is there ---- *)
+Lemma running_totals_length sizes : forall acc, zlen (running_totals acc sizes) = zlen sizes + 1.
 Proof.
-  intros Hm. induction k as [|k IH]; intros Hk; [reflexivity|].
-  cbn [tri_steps]. rewrite Nat2Z.inj_succ in *.
-  rewrite Z.max_l by lia. rewrite Z.min_l by lia.
-  specialize (IH ltac:(lia)). lia.
+  induction sizes as [|s r IH]; intros acc; cbn [running_totals]; [reflexivity|].
+  unfold zlen in *. cbn [length]. rewrite Nat2Z.inj_succ, IH. lia.
 Qed.
 
-(* PackInfo with n sizes: (n+1)(n+2)/2 list cells are walked to build n+1 positions *)
-Theorem packpositions_steps_quadratic n :
-  0 <= n -> 2 * packpositions_steps n n = (n + 1) * (n + 2).
+(* PackInfo: one cell per pack size plus one, whatever numstreams says *)
+Theorem packpositions_linear sizes :
+  zlen (packpositions sizes) = zlen sizes + 1 /\ packpositions_steps (zlen sizes) = zlen sizes + 1.
 Proof.
-  intros Hn. unfold packpositions_steps. rewrite tri_steps_closed by lia.
-  rewrite Z2Nat.id by lia. lia.
+  split; [apply running_totals_length|]. unfold packpositions_steps. pose proof (zlen_nonneg sizes). lia.
 Qed.
 
-Theorem packpositions_superlinear a b :
-  0 <= a -> 0 <= b -> exists n, 0 <= n /\ a * n + b < packpositions_steps n n.
+(* the entries are the prefix sums the former code computed *)
+Lemma running_totals_nth sizes : forall acc i, (i <= length sizes)%nat ->
+  nth i (running_totals acc sizes) 0 = acc + sumZ (firstn i sizes).
 Proof.
-  intros Ha Hb. exists (2 * a + 2 * b + 1). split; [lia|].
-  pose proof (packpositions_steps_quadratic (2 * a + 2 * b + 1) ltac:(lia)) as H. nia.
+  induction sizes as [|s r IH]; intros acc i Hi.
+  - cbn [length] in Hi. assert (i = 0%nat) by lia. subst i. cbn [running_totals nth firstn]. rewrite sumZ_nil. lia.
+  - destruct i as [|i]; [cbn [running_totals nth firstn]; rewrite sumZ_nil; lia|].
+    cbn [running_totals nth firstn]. rewrite IH by (cbn [length] in Hi; lia). rewrite sumZ_cons. lia.
 Qed.
 
-Lemma packpositions_length sizes n : -1 <= n -> zlen (packpositions sizes n) = n + 1.
+(* read_utf16: every read but the last of a name takes two bytes of the buffer *)
+Lemma utf16_scan_bound : forall fuel k bs k' r,
+  utf16_scan fuel k bs = (k', r) ->
+  k <= k' /\ zlen r <= zlen bs /\ 2 * (k' - k) <= (zlen bs - zlen r) + 2.
 Proof.
-  intros Hn. unfold packpositions, zlen, py_range. rewrite map_length, range_from_length. lia.
+  induction fuel as [|f IH]; intros k bs k' r H; cbn [utf16_scan] in H.
+  - injection H as <- <-. lia.
+  - destruct (65536 <=? k); [injection H as <- <-; lia|].
+    destruct bs as [|a [|b bs]].
+    + injection H as <- <-. unfold zlen. cbn [length]. lia.
+    + injection H as <- <-. unfold zlen. cbn [length]. lia.
+    + destruct ((a =? 0) && (b =? 0)).
+      * injection H as <- <-. unfold zlen. cbn [length]. lia.
+      * apply IH in H. unfold zlen in *. cbn [length]. lia.
 Qed.
 
-(* without a SIZE section the sums are over the empty list: n + 1 steps for a declared n *)
-Lemma tri_steps_nosizes k : tri_steps k 0 = Z.of_nat k.
+Theorem utf16_iters_linear bs : 1 <= utf16_iters bs /\ 2 * utf16_iters bs <= zlen bs + 2.
 Proof.
-  induction k as [|k IH]; [reflexivity|]. cbn [tri_steps]. rewrite IH, Nat2Z.inj_succ.
-  rewrite Z.max_r by lia. rewrite Z.min_r by lia. lia.
+  unfold utf16_iters. destruct (utf16_scan (S (length bs)) 0 bs) as [k r] eqn:E. cbn [fst].
+  pose proof (utf16_scan_bound _ _ _ _ _ E) as (H1 & H2 & H3). pose proof (zlen_nonneg r).
+  split; [|lia].
+  cbn [utf16_scan] in E. change (65536 <=? 0) with false in E. cbv iota in E.
+  destruct bs as [|a [|b bs]]; try (injection E as <- _; lia).
+  destruct ((a =? 0) && (b =? 0)); [injection E as <- _; lia|].
+  apply utf16_scan_bound in E. lia.
 Qed.
-Theorem packpositions_steps_nosizes n : 0 <= n -> packpositions_steps 0 n = n + 1.
-Proof. intros Hn. unfold packpositions_steps. rewrite tri_steps_nosizes. lia. Qed.
 
-(* read_utf16 at end of input: 65536 iterations for every declared file *)
-Theorem names_steps_eof n : names_steps n [] = 65536 * Z.of_nat n.
+(* FilesInfo._read_name: linear in the declared number of files plus the bytes of the record *)
+Theorem names_steps_linear : forall n bs, 2 * names_steps n bs <= 2 * Z.of_nat n + zlen bs.
+Proof.
+  induction n as [|n IH]; intros bs; [cbn [names_steps]; pose proof (zlen_nonneg bs); lia|].
+  cbn [names_steps]. destruct (utf16_scan (S (length bs)) 0 bs) as [k r] eqn:E.
+  pose proof (utf16_scan_bound _ _ _ _ _ E) as (H1 & H2 & H3). specialize (IH r).
+  rewrite Nat2Z.inj_succ. lia.
+Qed.
+
+Theorem names_steps_eof n : names_steps n [] = Z.of_nat n.
 Proof.
   induction n as [|n IH]; [reflexivity|].
-  change (names_steps (S n) []) with (65536 + names_steps n []). rewrite IH. lia.
+  change (names_steps (S n) []) with (1 + names_steps n []). rewrite IH. lia.
 Qed.
 
-(* Folder._read: with no bond naming an input stream below totalin, every one of the totalin
-   searches walks the whole bond list *)
-Lemma find_in_steps_nomatch bonds i :
-  (forall b, In b bonds -> fst b <> i) -> find_in_steps bonds i = zlen bonds.
+(* _read_digest: every read but the last takes at least one byte of the file *)
+Lemma read_digest_reads_bound : forall fuel size bsz avail,
+  0 < bsz -> 0 <= read_digest_reads fuel size bsz avail <= Z.max avail 0 + 1.
 Proof.
-  induction bonds as [|b bonds IH]; intros H; [reflexivity|].
-  cbn [find_in_steps]. destruct (fst b =? i) eqn:E.
-  - exfalso. apply (H b (or_introl eq_refl)). lia.
-  - rewrite IH by (intros b' Hb'; apply H; right; exact Hb').
-    unfold zlen. cbn [length]. lia.
+  induction fuel as [|f IH]; intros size bsz avail Hb; cbn [read_digest_reads]; [lia|].
+  destruct (size <=? 0) eqn:Es; [lia|].
+  destruct (Z.min (Z.min bsz size) (Z.max avail 0) <=? 0) eqn:Eg; [lia|].
+  specialize (IH (size - Z.min bsz size) bsz (avail - Z.min (Z.min bsz size) (Z.max avail 0)) Hb). lia.
 Qed.
 
-Lemma sumZ_map_const {A} (f : A -> Z) (c : Z) (l : list A) :
-  (forall x, In x l -> f x = c) -> sumZ (map f l) = c * zlen l.
-Proof.
-  induction l as [|x l IH]; intros H; [cbn [map]; rewrite sumZ_nil; unfold zlen; cbn [length]; lia|].
-  cbn [map]. rewrite sumZ_cons, IH by (intros y Hy; apply H; right; exact Hy).
-  rewrite (H x (or_introl eq_refl)). unfold zlen. cbn [length]. lia.
-Qed.
-
-Lemma range_from_In a n x : In x (range_from a n) -> a <= x < a + Z.of_nat n.
-Proof.
-  revert a. induction n as [|n IH]; intros a H; [destruct H|].
-  cbn [range_from] in H. destruct H as [H|H]; [lia|]. apply IH in H. lia.
-Qed.
-
-Theorem packed_indices_steps_worst bonds totalin :
-  0 <= totalin ->
-  (forall b, In b bonds -> fst b < 0 \/ totalin <= fst b) ->
-  packed_indices_steps bonds totalin = zlen bonds * totalin.
-Proof.
-  intros Ht H. unfold packed_indices_steps.
-  rewrite (sumZ_map_const _ (zlen bonds)).
-  - f_equal. unfold zlen, py_range. rewrite range_from_length. lia.
-  - intros i Hi. apply range_from_In in Hi. apply find_in_steps_nomatch.
-    intros b Hb. specialize (H b Hb). lia.
-Qed.
-
-(* _read_digest: the trip count is the declared pack size over the block size *)
-Theorem read_digest_iters_bound size bsz :
-  0 < size -> 0 < bsz -> size <= read_digest_iters size bsz * bsz.
-Proof.
-  intros Hs Hb. unfold read_digest_iters.
-  destruct (size <=? 0) eqn:E1; [lia|]. destruct (bsz <=? 0) eqn:E2; [lia|].
-  pose proof (Z.div_mod (size + bsz - 1) bsz ltac:(lia)).
-  pose proof (Z.mod_pos_bound (size + bsz - 1) bsz ltac:(lia)). nia.
-Qed.
+Theorem read_digest_iters_linear size bsz avail :
+  0 < bsz -> 0 <= read_digest_iters size bsz avail <= Z.max avail 0 + 1.
+Proof. intros Hb. apply read_digest_reads_bound. exact Hb. Qed.
 
 (* ---- C2. the decompress loops ---------------------------------------------- *)
 Section Loops.
@@ -334,388 +368,219 @@ Section Loops.
       + destruct (_ <=? ml); discriminate.
   Qed.
 
-  (* a read that is not an end-of-file indication on a non-empty file *)
-  Definition okrd (st : dst) (rd : nat) : Prop := (0 < rd)%nat \/ Decomp.fp_rest st = [].
 
-  Lemma sched_hd_okrd (st : dst) (sched : list nat) :
-    Forall (fun k => (0 < k)%nat) sched -> okrd st (Decomp.sched_hd st sched).
+  (* what a call does to the file: it takes d >= 0 bytes off its front, and `consumed` grows by d.
+     No invariant of the state is needed. *)
+  Lemma read_data_consumption (st st1 : dst) (rd : nat) (data : bytes) :
+    Decomp.read_data st rd = (st1, data) ->
+    Decomp.consumed st1 = Decomp.consumed st + dzlen data /\
+    dzlen (Decomp.fp_rest st1) = dzlen (Decomp.fp_rest st) - dzlen data.
   Proof.
-    intros Hs. unfold okrd, Decomp.sched_hd. destruct sched as [|k sched].
-    - destruct (Decomp.fp_rest st) as [|b r]; [right; reflexivity|left; cbn; lia].
-    - left. inversion Hs; assumption.
+    intros H. pose proof (Decomp.read_data_spec _ st st1 rd data H) as (_ & _ & _ & _ & _ & _ & _ & _ & R9 & R10 & _).
+    split; [exact R10|]. rewrite R9, Decomp.zlen_app. lia.
   Qed.
 
-  (* ---- termination under a progress contract ------------------------------
-     I       : invariant relating the decompressor state to the bytes still wanted
-     lat, k  : a call may return nothing without having read input at most k times in a row
-               (lat decreases on each such call)
-     This is what a guard "raise when the decoder yields nothing and the input is exhausted"
-     establishes with k = 0. *)
-  Section Progress.
-    Variable I : dst -> Z -> Prop.
-    Variable lat : dst -> nat.
-    Variable k : nat.
-    Variable mb : Z.
-    Variable L0 : Z.
-    Hypothesis mb_pos : 0 < mb.
-    Hypothesis I_book : forall st size, I st size -> Decomp.book_inv L0 st.
-    Hypothesis I_step : forall st size rd st' out,
-        I st size -> 0 < size -> okrd st rd ->
-        Decomp.decompress dstep st (Z.min size mb) rd = Ok (st', out) ->
-        0 < size - dzlen out -> I st' (size - dzlen out).
-    Hypothesis lat_le : forall st, (lat st <= k)%nat.
-    Hypothesis progress : forall st size rd st',
-        I st size -> 0 < size -> okrd st rd ->
-        Decomp.decompress dstep st (Z.min size mb) rd = Ok (st', []) ->
-        Decomp.consumed st' = Decomp.consumed st -> (lat st' < lat st)%nat.
+  Lemma decompress_consumption (st st' : dst) (ml : Z) (rd : nat) (out : bytes) :
+    Decomp.decompress dstep st ml rd = Ok (st', out) ->
+    exists d, 0 <= d /\ Decomp.consumed st' = Decomp.consumed st + d /\
+              dzlen (Decomp.fp_rest st') = dzlen (Decomp.fp_rest st) - d.
+  Proof.
+    unfold Decomp.decompress. intros H.
+    assert (Hrc : forall (s1 s2 : dst) data o m, Decomp.run_chain dstep s1 data m = Ok (s2, o) ->
+                    Decomp.consumed s2 = Decomp.consumed s1 /\ Decomp.fp_rest s2 = Decomp.fp_rest s1).
+    { intros s1 s2 data o m Hr. apply Decomp.run_chain_spec in Hr.
+      destruct Hr as (_ & _ & C3 & _ & _ & _ & _ & _ & C9). split; assumption. }
+    destruct (ml <? 0).
+    - destruct (Decomp.read_data st rd) as [st1 data] eqn:Hrd. apply read_data_consumption in Hrd.
+      destruct (Decomp.run_chain dstep st1 (Decomp.unused st1 ++ data) ml) as [[st2 o]|e] eqn:Hr; cbn [bind] in H; [|discriminate].
+      apply Hrc in Hr. injection H as <- _. cbn [Decomp.set_buf Decomp.consumed Decomp.fp_rest].
+      exists (dzlen data). pose proof (Decomp.zlen_nonneg data). destruct Hr as [-> ->]. lia.
+    - destruct (_ >=? ml).
+      + injection H as <- _. exists 0. cbn [Decomp.set_buf Decomp.consumed Decomp.fp_rest]. lia.
+      + destruct (Decomp.read_data st rd) as [st1 data] eqn:Hrd. apply read_data_consumption in Hrd.
+        pose proof (Decomp.zlen_nonneg data).
+        destruct (dzlen (Decomp.unused st1) >? 0).
+        * destruct (Decomp.run_chain dstep st1 (Decomp.unused st1 ++ data) ml) as [[st2 o]|e] eqn:Hr; cbn [bind] in H; [|discriminate].
+          apply Hrc in Hr. destruct Hr as [Hc Hf].
+          destruct (_ <=? ml); injection H as <- _; cbn [Decomp.set_buf Decomp.consumed Decomp.fp_rest];
+            exists (dzlen data); rewrite Hc, Hf; lia.
+        * destruct (Decomp.run_chain dstep st1 data ml) as [[st2 o]|e] eqn:Hr; cbn [bind] in H; [|discriminate].
+          apply Hrc in Hr. destruct Hr as [Hc Hf].
+          destruct (_ <=? ml); injection H as <- _; cbn [Decomp.set_buf Decomp.consumed Decomp.fp_rest];
+            exists (dzlen data); rewrite Hc, Hf; lia.
+  Qed.
 
-    Definition loop_measure (st : dst) (size : Z) : Z :=
-      (Z.max size 0 + dzlen (Decomp.fp_rest st)) * (Z.of_nat k + 1) + Z.of_nat (lat st).
+  Lemma worker_guarded_unfold (fuel : nat) (st : dst) (size mb stalled : Z) (sched : list nat) :
+    worker_guarded dstep fuel st size mb stalled sched =
+    if size >? 0 then
+      match fuel with
+      | O => Err EFuel
+      | S fuel' =>
+          do r <- Decomp.decompress dstep st (Z.min size mb) (Decomp.sched_hd st sched);
+          let '(st', tmp) := r in
+          if dzlen tmp >? 0 then
+            if size - dzlen tmp <=? 0 then Ok (st', tmp)
+            else
+              do r' <- worker_guarded dstep fuel' st' (size - dzlen tmp) mb 0 (tl sched);
+              let '(st'', out) := r' in Ok (st'', tmp ++ out)
+          else if Decomp.consumed st' =? Decomp.consumed st then
+            if MAX_STALLED_ROUNDS <? stalled + 1 then Err EBad7z
+            else worker_guarded dstep fuel' st' size mb (stalled + 1) (tl sched)
+          else worker_guarded dstep fuel' st' size mb stalled (tl sched)
+      end
+    else Ok (st, []).
+  Proof. destruct fuel; reflexivity. Qed.
 
-    Lemma loop_measure_nonneg st size : 0 <= loop_measure st size.
-    Proof. unfold loop_measure. pose proof (Decomp.zlen_nonneg (Decomp.fp_rest st)). nia. Qed.
-
-    Lemma worker_terminates_measure :
-      forall fuel st size sched,
-        I st size -> Forall (fun k => (0 < k)%nat) sched ->
-        loop_measure st size < Z.of_nat fuel ->
-        Decomp.worker_decompress dstep fuel st size mb sched <> Err EFuel.
-    Proof.
-      induction fuel as [|fuel IH]; intros st size sched HI Hs Hm.
-      - pose proof (loop_measure_nonneg st size). lia.
-      - rewrite Decomp.worker_unfold.
-        destruct (size >? 0) eqn:Esz; [|discriminate].
-        assert (Hsz : 0 < size) by lia.
-        pose proof (sched_hd_okrd st sched Hs) as Hrd.
-        destruct (Decomp.decompress dstep st (Z.min size mb) (Decomp.sched_hd st sched))
-          as [[st' tmp]|e] eqn:Hd; cbn [bind].
-        2:{ intros H. inversion H; subst. exact (decompress_not_fuel _ _ _ Hd). }
-        assert (Hrem : (if dzlen tmp >? 0 then size - dzlen tmp else size) = size - dzlen tmp).
-        { pose proof (Decomp.zlen_nonneg tmp). destruct (dzlen tmp >? 0) eqn:Et; lia. }
-        rewrite Hrem.
-        destruct (size - dzlen tmp <=? 0) eqn:Er; [discriminate|].
-        assert (Hpos : 0 < size - dzlen tmp) by lia.
-        pose proof (I_step _ _ _ _ _ HI Hsz Hrd Hd Hpos) as HI'.
-        assert (Hm' : loop_measure st' (size - dzlen tmp) < Z.of_nat fuel).
-        { pose proof (I_book _ _ HI) as Hb.
-          destruct (Decomp.decompress_book_inv _ dstep L0 st st' _ _ tmp Hb Hd) as (Hb' & Hc & _).
-          destruct Hb as (_ & _ & Hl). destruct Hb' as (_ & _ & Hl').
-          pose proof (lat_le st'). pose proof (Decomp.zlen_nonneg tmp).
-          unfold loop_measure in *.
-          destruct (Z.eq_dec (dzlen tmp) 0) as [Ht|Ht].
-          - assert (tmp = []) by (apply Decomp.zlen_le0_nil; lia). subst tmp.
-            destruct (Z.eq_dec (Decomp.consumed st') (Decomp.consumed st)) as [Hce|Hce].
-            + pose proof (progress _ _ _ _ HI Hsz Hrd Hd Hce).
-              replace (dzlen (Decomp.fp_rest st')) with (dzlen (Decomp.fp_rest st)) by lia. nia.
-            + nia.
-          - nia. }
-        destruct (Decomp.worker_decompress dstep fuel st' (size - dzlen tmp) mb (tl sched))
-          as [[st'' out]|e] eqn:Hw; cbn [bind]; [discriminate|].
-        intros H. inversion H; subst.
-        apply (IH st' (size - dzlen tmp) (tl sched) HI'); [|exact Hm'|exact Hw].
-        destruct sched as [|x sched]; [constructor|]. inversion Hs; assumption.
-    Qed.
-
-    (* the bound: (declared output + file content still unread + 1) times the latency *)
-    Theorem worker_terminates (st : dst) (size : Z) (sched : list nat) (fuel : nat) :
-      I st size -> Forall (fun k => (0 < k)%nat) sched ->
-      (Z.max size 0 + dzlen (Decomp.fp_rest st) + 1) * (Z.of_nat k + 1) <= Z.of_nat fuel ->
-      Decomp.worker_decompress dstep fuel st size mb sched <> Err EFuel.
-    Proof.
-      intros HI Hs Hf. apply worker_terminates_measure; [exact HI|exact Hs|].
-      pose proof (lat_le st). pose proof (Decomp.zlen_nonneg (Decomp.fp_rest st)).
-      unfold loop_measure. nia.
-    Qed.
-  End Progress.
-End Loops.
-
-(* ---- C3. the encoded-header loop is the worker loop with max_block_size = remaining ---- *)
-Section HeaderLoopProofs.
-  Variable stage_st : Type.
-  Variable dstep : stage_st -> bytes -> Z -> stage_st * bytes.
-  Local Notation dst := (Decomp.dstate stage_st).
-  Local Notation dzlen := Decomp.zlen.
-
-  Lemma header_loop_unfold (fuel : nat) (st : dst) (usize : Z) (acc : bytes) (sched : list nat) :
-    header_loop dstep fuel st usize acc sched =
+  Lemma header_guarded_unfold (fuel : nat) (st : dst) (usize : Z) (acc : bytes) (stalled : Z) (sched : list nat) :
+    header_guarded dstep fuel st usize acc stalled sched =
     if usize - dzlen acc >? 0 then
       match fuel with
       | O => Err EFuel
       | S fuel' =>
           do r <- Decomp.decompress dstep st (usize - dzlen acc) (Decomp.sched_hd st sched);
-          let '(st', tmp) := r in
-          header_loop dstep fuel' st' usize (acc ++ tmp) (tl sched)
+          let '(st', chunk) := r in
+          if (dzlen chunk =? 0) && (Decomp.consumed st' =? Decomp.consumed st) then
+            if MAX_STALLED_ROUNDS <? stalled + 1 then Err EBad7z
+            else header_guarded dstep fuel' st' usize (acc ++ chunk) (stalled + 1) (tl sched)
+          else header_guarded dstep fuel' st' usize (acc ++ chunk) 0 (tl sched)
       end
     else Ok (st, acc).
   Proof. destruct fuel; reflexivity. Qed.
 
-  Definition with_acc (acc : bytes) (r : res (dst * bytes)) : res (dst * bytes) :=
-    match r with Ok (st', out) => Ok (st', acc ++ out) | Err e => Err e end.
+  (* rounds still possible: 18 for every byte still wanted or still in the file, and the stall budget *)
+  Definition guarded_measure (st : dst) (size stalled : Z) : Z :=
+    18 * (Z.max size 0 + dzlen (Decomp.fp_rest st)) + (17 - stalled).
 
-  Theorem header_loop_is_worker :
-    forall fuel st usize acc sched mb,
-      usize - dzlen acc <= mb ->
-      header_loop dstep fuel st usize acc sched =
-      with_acc acc (Decomp.worker_decompress dstep fuel st (usize - dzlen acc) mb sched).
+  (* THE HEADLINE: the guarded loop ends -- with a result or an ordinary exception -- within a number of
+     rounds linear in the declared size and the file size, for EVERY behaviour of the decoder stages,
+     every state of the decompressor and every schedule of short reads *)
+  Theorem worker_guarded_terminates :
+    forall fuel (st : dst) size mb stalled sched,
+      0 <= stalled <= 16 ->
+      guarded_measure st size stalled < Z.of_nat fuel ->
+      worker_guarded dstep fuel st size mb stalled sched <> Err EFuel.
   Proof.
-    induction fuel as [|fuel IH]; intros st usize acc sched mb Hmb;
-      rewrite header_loop_unfold, Decomp.worker_unfold;
-      (destruct (usize - dzlen acc >? 0) eqn:Esz;
-       [|cbn [with_acc]; rewrite app_nil_r; reflexivity]).
-    - reflexivity.
-    - rewrite Z.min_l by lia.
-      destruct (Decomp.decompress dstep st (usize - dzlen acc) (Decomp.sched_hd st sched))
-        as [[st' tmp]|e] eqn:Hd; cbn [bind with_acc]; [|reflexivity].
-      assert (Hrem : (if dzlen tmp >? 0 then usize - dzlen acc - dzlen tmp else usize - dzlen acc)
-                     = usize - dzlen (acc ++ tmp)).
-      { rewrite Decomp.zlen_app. pose proof (Decomp.zlen_nonneg tmp).
-        destruct (dzlen tmp >? 0) eqn:Et; lia. }
-      rewrite Hrem.
-      destruct (usize - dzlen (acc ++ tmp) <=? 0) eqn:Er.
-      + rewrite header_loop_unfold.
-        destruct (usize - dzlen (acc ++ tmp) >? 0) eqn:Er2; [lia|]. reflexivity.
-      + pose proof (Decomp.zlen_nonneg tmp). rewrite Decomp.zlen_app in *.
-        rewrite (IH st' usize (acc ++ tmp) (tl sched) mb) by (rewrite Decomp.zlen_app; lia).
-        rewrite Decomp.zlen_app.
-        destruct (Decomp.worker_decompress dstep fuel st' (usize - (dzlen acc + dzlen tmp)) mb (tl sched))
-          as [[st'' out]|e]; cbn [bind with_acc]; [rewrite app_assoc; reflexivity|reflexivity].
+    induction fuel as [|fuel IH]; intros st size mb stalled sched Hst Hm; rewrite worker_guarded_unfold.
+    - destruct (size >? 0) eqn:Es; [|discriminate]. exfalso.
+      unfold guarded_measure in Hm. pose proof (Decomp.zlen_nonneg (Decomp.fp_rest st)). lia.
+    - destruct (size >? 0) eqn:Es; [|discriminate].
+      destruct (Decomp.decompress dstep st (Z.min size mb) (Decomp.sched_hd st sched)) as [[st' tmp]|e] eqn:Hd; cbn [bind].
+      2:{ intros H. inversion H; subst. exact (decompress_not_fuel _ _ _ Hd). }
+      destruct (decompress_consumption _ _ _ _ _ Hd) as (d & Hd0 & Hdc & Hdf).
+      pose proof (Decomp.zlen_nonneg (Decomp.fp_rest st')) as Hf'.
+      unfold guarded_measure in *. unfold MAX_STALLED_ROUNDS.
+      destruct (dzlen tmp >? 0) eqn:Et.
+      + destruct (size - dzlen tmp <=? 0) eqn:Er; [discriminate|].
+        destruct (worker_guarded dstep fuel st' (size - dzlen tmp) mb 0 (tl sched)) as [[st'' out]|e] eqn:Hw;
+          cbn [bind]; [discriminate|].
+        intros H. inversion H; subst. revert Hw. apply IH; [lia|]. lia.
+      + destruct (Decomp.consumed st' =? Decomp.consumed st) eqn:Ec.
+        * destruct (16 <? stalled + 1) eqn:E16; [discriminate|]. apply IH; [lia|]. lia.
+        * apply IH; [lia|]. lia.
   Qed.
 
-  (* non-termination: a quiet, exhausted decompressor and a declared size not yet reached *)
-  Theorem header_loop_spins (quiet : stage_st -> Prop) :
-    (forall s ml, quiet s -> snd (dstep s [] ml) = [] /\ quiet (fst (dstep s [] ml))) ->
-    forall fuel st usize acc sched,
-      Decomp.stuck quiet st -> dzlen acc < usize ->
-      header_loop dstep fuel st usize acc sched = Err EFuel.
+  (* in numbers: from a fresh count of stalled rounds *)
+  Corollary worker_guarded_rounds (st : dst) (size mb : Z) (sched : list nat) (fuel : nat) :
+    18 * (Z.max size 0 + dzlen (Decomp.fp_rest st)) + 17 < Z.of_nat fuel ->
+    worker_guarded dstep fuel st size mb 0 sched <> Err EFuel.
+  Proof. intros H. apply worker_guarded_terminates; [lia|]. unfold guarded_measure. lia. Qed.
+
+  Theorem header_guarded_terminates :
+    forall fuel (st : dst) usize acc stalled sched,
+      0 <= stalled <= 16 ->
+      guarded_measure st (usize - dzlen acc) stalled < Z.of_nat fuel ->
+      header_guarded dstep fuel st usize acc stalled sched <> Err EFuel.
   Proof.
-    intros Hq fuel st usize acc sched Hst Hsz.
-    rewrite (header_loop_is_worker fuel st usize acc sched (usize - dzlen acc)) by lia.
-    rewrite (Decomp.worker_spins stage_st dstep quiet Hq fuel st _ _ sched Hst) by lia.
-    reflexivity.
+    induction fuel as [|fuel IH]; intros st usize acc stalled sched Hst Hm; rewrite header_guarded_unfold.
+    - destruct (usize - dzlen acc >? 0) eqn:Es; [|discriminate]. exfalso.
+      unfold guarded_measure in Hm. pose proof (Decomp.zlen_nonneg (Decomp.fp_rest st)). lia.
+    - destruct (usize - dzlen acc >? 0) eqn:Es; [|discriminate].
+      destruct (Decomp.decompress dstep st (usize - dzlen acc) (Decomp.sched_hd st sched)) as [[st' chunk]|e] eqn:Hd; cbn [bind].
+      2:{ intros H. inversion H; subst. exact (decompress_not_fuel _ _ _ Hd). }
+      destruct (decompress_consumption _ _ _ _ _ Hd) as (d & Hd0 & Hdc & Hdf).
+      pose proof (Decomp.zlen_nonneg (Decomp.fp_rest st')) as Hf'. pose proof (Decomp.zlen_nonneg chunk) as Hc0.
+      unfold guarded_measure in *. unfold MAX_STALLED_ROUNDS.
+      destruct ((dzlen chunk =? 0) && (Decomp.consumed st' =? Decomp.consumed st)) eqn:Eb.
+      + destruct (16 <? stalled + 1) eqn:E16; [discriminate|].
+        apply IH; [lia|]. rewrite Decomp.zlen_app. lia.
+      + apply IH; [lia|]. rewrite Decomp.zlen_app. lia.
   Qed.
 
-  (* termination under the same progress contract as the worker loop *)
-  Theorem header_loop_terminates
-          (I : dst -> Z -> Prop) (lat : dst -> nat) (k : nat) (L0 : Z)
-          (st : dst) (usize : Z) (acc : bytes) (sched : list nat) (fuel : nat) :
-    let mb := usize - dzlen acc in
-    0 < mb ->
-    (forall st size, I st size -> Decomp.book_inv L0 st) ->
-    (forall st size rd st' out,
-        I st size -> 0 < size -> okrd stage_st st rd ->
-        Decomp.decompress dstep st (Z.min size mb) rd = Ok (st', out) ->
-        0 < size - dzlen out -> I st' (size - dzlen out)) ->
-    (forall st, (lat st <= k)%nat) ->
-    (forall st size rd st',
-        I st size -> 0 < size -> okrd stage_st st rd ->
-        Decomp.decompress dstep st (Z.min size mb) rd = Ok (st', []) ->
-        Decomp.consumed st' = Decomp.consumed st -> (lat st' < lat st)%nat) ->
-    I st mb -> Forall (fun k => (0 < k)%nat) sched ->
-    (mb + dzlen (Decomp.fp_rest st) + 1) * (Z.of_nat k + 1) <= Z.of_nat fuel ->
-    header_loop dstep fuel st usize acc sched <> Err EFuel.
+  Corollary header_guarded_rounds (st : dst) (usize : Z) (sched : list nat) (fuel : nat) :
+    18 * (Z.max usize 0 + dzlen (Decomp.fp_rest st)) + 17 < Z.of_nat fuel ->
+    header_guarded dstep fuel st usize [] 0 sched <> Err EFuel.
   Proof.
-    intros mb Hmb Hbook Hstep Hlat Hprog HI Hs Hf.
-    rewrite (header_loop_is_worker fuel st usize acc sched mb) by (subst mb; lia).
-    fold mb.
-    pose proof (worker_terminates stage_st dstep I lat k mb L0 Hmb Hbook Hstep Hlat Hprog
-                                  st mb sched fuel HI Hs) as Hw.
-    rewrite Z.max_l in Hw by lia. specialize (Hw Hf).
-    destruct (Decomp.worker_decompress dstep fuel st mb mb sched) as [[st' out]|e];
-      cbn [with_acc]; [discriminate|].
-    intros H. apply Hw. inversion H; reflexivity.
+    intros H. apply header_guarded_terminates; [lia|]. unfold guarded_measure.
+    change (dzlen []) with 0. rewrite Z.sub_0_r. lia.
   Qed.
-End HeaderLoopProofs.
 
-(* the witness of Decomp.toy_worker_spins for the encoded-header loop: a Copy-coded header
-   declared to be 10 bytes whose packed stream holds 3 *)
-Theorem toy_header_loop_spins (fuel : nat) :
-  toy_header_loop fuel [Decomp.toy_st 0 0 []] [10] 3 100 [1; 2; 3] 10 [] = Err EFuel.
-Proof.
-  unfold toy_header_loop, Decomp.toy_init.
-  destruct fuel as [|fuel]; [reflexivity|].
-  rewrite header_loop_unfold.
-  change (10 - Decomp.zlen [] >? 0) with true. cbv iota.
-  set (st0 := Decomp.init_state [Decomp.toy_st 0 0 []] [10] 3 100 [1; 2; 3]).
-  set (st1 := Decomp.mkD [Decomp.toy_st 0 0 []] [3] [10] 3 3 100 [] [] 0 []).
-  assert (Hd : Decomp.decompress Decomp.toy_dstep st0 (10 - Decomp.zlen []) (Decomp.sched_hd st0 [])
-               = Ok (st1, [1; 2; 3])) by (vm_compute; reflexivity).
-  rewrite Hd. cbn [bind]. cbv iota beta.
-  rewrite (header_loop_spins Decomp.toy_state Decomp.toy_dstep (fun s => fst (fst s) = 0)).
-  - reflexivity.
-  - intros [[t k] p] ml Ht. simpl in Ht. subst t. simpl. split; reflexivity.
-  - unfold Decomp.stuck, st1; simpl. repeat split; auto.
-  - vm_compute. reflexivity.
-Qed.
+  (* the scenario that made the former loop spin (Decomp.worker_spins: a quiet, exhausted decompressor and
+     bytes still wanted) now ends with Bad7zFile after 17 rounds *)
+  Section StuckNowRaises.
+    Variable quiet : stage_st -> Prop.
+    Hypothesis quiet_step : forall s ml,
+        quiet s -> snd (dstep s [] ml) = [] /\ quiet (fst (dstep s [] ml)).
 
-(* ---- C4. the progress contract is satisfiable: the Copy stage on a stream that really
-        holds the declared number of bytes ---------------------------------------- *)
-Section EmptyResult.
-  Variable stage_st : Type.
-  Variable dstep : stage_st -> bytes -> Z -> stage_st * bytes.
-  Local Notation dst := (Decomp.dstate stage_st).
-  Local Notation dzlen := Decomp.zlen.
+    Lemma stuck_round (st : dst) (ml : Z) (rd : nat) :
+      Decomp.stuck quiet st -> 0 < ml ->
+      exists st', Decomp.decompress dstep st ml rd = Ok (st', []) /\ Decomp.stuck quiet st' /\
+                  Decomp.consumed st' = Decomp.consumed st.
+    Proof.
+      intros Hs Hml.
+      destruct (Decomp.stuck_step _ dstep quiet quiet_step st ml rd Hs Hml) as (st' & Hd & Hs').
+      exists st'. split; [exact Hd|]. split; [exact Hs'|].
+      destruct (decompress_consumption _ _ _ _ _ Hd) as (d & Hd0 & Hdc & Hdf).
+      destruct Hs as (_ & _ & _ & Hun & _ & Hno).
+      (* nothing can be read in a stuck state *)
+      unfold Decomp.decompress in Hd.
+      destruct (ml <? 0) eqn:E1; [lia|].
+      destruct (_ >=? ml) eqn:E2; [injection Hd as <- _; reflexivity|].
+      destruct (Decomp.read_data st rd) as [st1 data] eqn:Hrd.
+      pose proof (Decomp.read_data_spec _ st st1 rd data Hrd) as (_ & _ & _ & _ & _ & R6 & _ & _ & R9 & R10 & R11).
+      assert (data = []) as ->.
+      { rewrite Hun in R11. change (dzlen []) with 0 in R11.
+        destruct Hno as [Hf|[Hi|Hb]].
+        - rewrite Hf in R9. symmetry in R9. apply app_eq_nil in R9. apply R9.
+        - apply Decomp.zlen_le0_nil. lia.
+        - apply Decomp.zlen_le0_nil. lia. }
+      rewrite R6, Hun in Hd. change (dzlen [] >? 0) with false in Hd. cbv iota in Hd.
+      destruct (Decomp.run_chain dstep st1 [] ml) as [[st2 tmp]|e] eqn:Hr; cbn [bind] in Hd; [|discriminate].
+      apply Decomp.run_chain_spec in Hr. destruct Hr as (_ & _ & C3 & _).
+      change (dzlen []) with 0 in R10.
+      destruct (_ <=? ml); injection Hd as <- _; cbn [Decomp.set_buf Decomp.consumed]; lia.
+    Qed.
 
-  (* when decompress returns nothing for a positive max_length, the carry-over buffer was
-     empty and the chain produced nothing from what was read *)
-  Lemma decompress_empty (st st' : dst) (ml : Z) (rd : nat) :
-    0 <= Decomp.pos st <= dzlen (Decomp.buf st) -> Decomp.unused st = [] -> 0 < ml ->
-    Decomp.decompress dstep st ml rd = Ok (st', []) ->
-    Decomp.pos st = dzlen (Decomp.buf st) /\
-    exists st1 data st2,
-      Decomp.read_data st rd = (st1, data) /\ Decomp.run_chain dstep st1 data ml = Ok (st2, []).
-  Proof.
-    intros Hpos Hun Hml H. unfold Decomp.decompress in H.
-    destruct (ml <? 0) eqn:E1; [lia|].
-    destruct (dzlen (Decomp.buf st) - Decomp.pos st >=? ml) eqn:E2.
-    - exfalso. injection H as _ Hout.
-      assert (Hl : dzlen (Decomp.py_slice (Decomp.buf st) (Decomp.pos st) (Decomp.pos st + ml)) = ml).
-      { rewrite Decomp.zlen_py_slice by lia. lia. }
-      rewrite Hout in Hl. cbn in Hl. lia.
-    - destruct (Decomp.read_data st rd) as [st1 data] eqn:Hrd.
-      pose proof (Decomp.read_data_spec _ st st1 rd data Hrd)
-        as (R1 & R2 & R3 & R4 & R5 & R6 & R7 & R8 & _).
-      rewrite R6, Hun in H. change (dzlen [] >? 0) with false in H. cbv iota in H.
-      destruct (Decomp.run_chain dstep st1 data ml) as [[st2 tmp]|e] eqn:Hrc; cbn [bind] in H; [|discriminate].
-      pose proof (Decomp.run_chain_spec _ dstep st1 st2 data tmp ml Hrc)
-        as (_ & _ & _ & _ & _ & _ & C7 & C8 & _).
-      assert (Hpf : dzlen (Decomp.py_from (Decomp.buf st2) (Decomp.pos st2))
-                    = dzlen (Decomp.buf st) - Decomp.pos st).
-      { rewrite C7, C8, R7, R8. apply Decomp.zlen_py_from. lia. }
-      pose proof (Decomp.zlen_nonneg tmp) as Htn.
-      destruct (dzlen (Decomp.buf st) - Decomp.pos st + dzlen tmp <=? ml) eqn:E3.
-      + injection H as _ Hout.
-        assert (Hl : dzlen (Decomp.py_from (Decomp.buf st2) (Decomp.pos st2) ++ tmp) = 0)
-          by (rewrite Hout; reflexivity).
-        rewrite Decomp.zlen_app, Hpf in Hl.
-        assert (tmp = []) by (apply Decomp.zlen_le0_nil; lia). subst tmp.
-        split; [lia|]. exists st1, data, st2. split; [reflexivity|exact Hrc].
-      + exfalso. injection H as _ Hout.
-        assert (Hl : dzlen (Decomp.py_from (Decomp.buf st2) (Decomp.pos st2)
-                            ++ Decomp.py_to tmp (ml - (dzlen (Decomp.buf st) - Decomp.pos st))) = 0)
-          by (rewrite Hout; reflexivity).
-        rewrite Decomp.zlen_app, Hpf, Decomp.zlen_py_to in Hl by lia. lia.
-  Qed.
-End EmptyResult.
+    Theorem worker_guarded_stuck_raises :
+      forall (n : nat) (st : dst) (size mb stalled : Z) (sched : list nat) (fuel : nat),
+        Decomp.stuck quiet st -> 0 < size -> 0 < mb ->
+        stalled = 16 - Z.of_nat n -> (n < fuel)%nat ->
+        worker_guarded dstep fuel st size mb stalled sched = Err EBad7z.
+    Proof.
+      induction n as [|n IH]; intros st size mb stalled sched fuel Hs Hsz Hmb Hst Hf;
+        (destruct fuel as [|fuel]; [lia|]); rewrite worker_guarded_unfold;
+        (destruct (size >? 0) eqn:Es; [|lia]);
+        destruct (stuck_round st (Z.min size mb) (Decomp.sched_hd st sched) Hs ltac:(lia)) as (st' & Hd & Hs' & Hc);
+        rewrite Hd; cbn [bind]; change (dzlen [] >? 0) with false; cbv iota;
+        rewrite Hc, Z.eqb_refl; unfold MAX_STALLED_ROUNDS.
+      - destruct (16 <? stalled + 1) eqn:E; [reflexivity|lia].
+      - destruct (16 <? stalled + 1) eqn:E; [lia|].
+        apply (IH st' size mb (stalled + 1) (tl sched) fuel Hs' Hsz Hmb); lia.
+    Qed.
+  End StuckNowRaises.
+End Loops.
 
-Definition copy_st : Decomp.toy_state := Decomp.toy_st 0 0 [].
+(* the witness of Decomp.toy_worker_spins (Copy, declared 10 bytes, the stream holds 3): the former loop is still
+   looping after any number of rounds, the guarded loop raises Bad7zFile; same for the encoded-header loop *)
+Example toy_guarded_witness :
+  toy_worker_guarded 40 [Decomp.toy_st 0 0 []] [10] 3 100 [1; 2; 3] 10 100 [] = Err EBad7z /\
+  toy_header_guarded 40 [Decomp.toy_st 0 0 []] [10] 3 100 [1; 2; 3] 10 [] = Err EBad7z /\
+  toy_worker_guarded 40 [Decomp.toy_st 0 0 []] [10] 10 4 [1; 2; 3; 4; 5; 6; 7; 8; 9; 10] 10 3 [1%nat; 2%nat]
+    = Ok [1; 2; 3; 4; 5; 6; 7; 8; 9; 10].
+Proof. vm_compute. repeat split; reflexivity. Qed.
 
-(* bytes of the packed stream still to be read *)
-Definition avail (st : Decomp.dstate Decomp.toy_state) : Z :=
-  Z.max 0 (Z.min (Decomp.zlen (Decomp.fp_rest st)) (Decomp.input_size st - Decomp.consumed st)).
-
-(* "the stream holds what is declared": the bytes wanted are in the carry-over buffer or
-   still in the packed stream, and the Copy stage's declared size covers them *)
-Definition copy_inv (L0 : Z) (st : Decomp.dstate Decomp.toy_state) (size : Z) : Prop :=
-  Decomp.book_inv L0 st /\ Decomp.stages st = [copy_st] /\
-  (exists u n, Decomp.unpacked st = [u] /\ Decomp.unpacksizes st = [n] /\ u + avail st <= n) /\
-  0 < Decomp.block_size st /\
-  size <= (Decomp.zlen (Decomp.buf st) - Decomp.pos st) + avail st.
-
-Lemma copy_chain_run u n data ml ss up out :
-  Decomp.chain_run Decomp.toy_dstep [copy_st] [u] [n] data ml = Ok (ss, up, out) ->
-  ss = [copy_st] /\ up = [u + Decomp.zlen data] /\ out = data.
-Proof.
-  cbn [Decomp.chain_run]. destruct (u <? n).
-  - cbn. intros H. inversion H; subst. repeat split; reflexivity.
-  - destruct (Decomp.zlen data =? 0) eqn:Ez; [|discriminate].
-    assert (data = []) by (apply Decomp.zlen_le0_nil; lia). subst data.
-    cbn. intros H. inversion H; subst. rewrite Z.add_0_r. repeat split; reflexivity.
-Qed.
-
-Lemma copy_inv_step L0 mb st size rd st' out :
-  copy_inv L0 st size -> 0 < size ->
-  Decomp.decompress Decomp.toy_dstep st (Z.min size mb) rd = Ok (st', out) ->
-  copy_inv L0 st' (size - Decomp.zlen out).
-Proof.
-  intros (Hb & Hst & (u & n & Hu & Hn & Hun) & Hbs & Hsz) Hpos Hd.
-  destruct (Decomp.decompress_book_inv _ Decomp.toy_dstep L0 st st' _ _ out Hb Hd) as (Hb' & _).
-  destruct Hb as (Hp & Hu0 & Hl).
-  destruct (Decomp.decompress_spec _ Decomp.toy_dstep st st' _ rd out Hp Hu0 Hd)
-    as (data & tmp & Hch & Hfp & Hcons & Hdl & Hus & His & Hbsz & Hun' & Hpos' & Hflow & _).
-  assert (Hchain : Decomp.stages st' = [copy_st] /\ Decomp.unpacked st' = [u + Decomp.zlen data]
-                   /\ tmp = data).
-  { destruct Hch as [(Hs & Hup & -> & ->)|[ml' Hcr]].
-    - rewrite Hs, Hup, Hst, Hu. cbn. rewrite Z.add_0_r. repeat split; reflexivity.
-    - rewrite Hst, Hu, Hn in Hcr. apply copy_chain_run in Hcr. exact Hcr. }
-  destruct Hchain as (Hst' & Hu' & ->).
-  pose proof (Decomp.zlen_nonneg data) as Hd0.
-  pose proof (Decomp.zlen_nonneg (Decomp.fp_rest st')) as Hf0.
-  assert (Hav : avail st' = avail st - Decomp.zlen data).
-  { unfold avail. rewrite Hfp, Decomp.zlen_app, Hcons, His. lia. }
-  assert (Hlen : (Decomp.zlen (Decomp.buf st) - Decomp.pos st) + Decomp.zlen data
-                 = Decomp.zlen out + (Decomp.zlen (Decomp.buf st') - Decomp.pos st')).
-  { assert (Hf := f_equal Decomp.zlen Hflow). rewrite !Decomp.zlen_app in Hf.
-    rewrite !Decomp.zlen_py_from in Hf by lia. lia. }
-  split; [exact Hb'|]. split; [exact Hst'|].
-  split; [exists (u + Decomp.zlen data), n; rewrite Hus; repeat split; [exact Hu'|exact Hn|lia]|].
-  split; [lia|]. lia.
-Qed.
-
-Lemma copy_inv_progress L0 mb st size rd st' :
-  0 < mb -> copy_inv L0 st size -> 0 < size -> okrd Decomp.toy_state st rd ->
-  Decomp.decompress Decomp.toy_dstep st (Z.min size mb) rd = Ok (st', []) -> False.
-Proof.
-  intros Hmb (Hb & Hst & (u & n & Hu & Hn & Hun) & Hbs & Hsz) Hpos Hrd Hd.
-  destruct Hb as (Hp & Hu0 & Hl).
-  assert (Hml : 0 < Z.min size mb) by lia.
-  destruct (decompress_empty _ Decomp.toy_dstep st st' (Z.min size mb) rd Hp Hu0 Hml Hd)
-    as (Hcur & st1 & data & st2 & Hread & Hrun).
-  pose proof (Decomp.read_data_spec _ st st1 rd data Hread) as (R1 & R2 & R3 & _).
-  apply Decomp.run_chain_spec in Hrun. destruct Hrun as (Hcr & _).
-  rewrite R1, R2, R3, Hst, Hu, Hn in Hcr. apply copy_chain_run in Hcr.
-  destruct Hcr as (_ & _ & Hdata). subst data.
-  (* nothing was read: the stream is exhausted *)
-  assert (Hav : avail st = 0).
-  { unfold avail. unfold Decomp.read_data in Hread. rewrite Hu0 in Hread.
-    change (Decomp.zlen []) with 0 in Hread. rewrite !Z.sub_0_r in Hread.
-    destruct (Z.min (Decomp.input_size st - Decomp.consumed st) (Decomp.block_size st) >? 0) eqn:Er.
-    - unfold Decomp.fp_read in Hread. injection Hread as _ Hfirst.
-      destruct (Decomp.fp_rest st) as [|b r] eqn:Hfr; [cbn; lia|].
-      destruct Hrd as [Hrd|Hrd]; [|rewrite Hfr in Hrd; discriminate].
-      exfalso.
-      destruct (Nat.min (Z.to_nat (Z.min (Decomp.input_size st - Decomp.consumed st) (Decomp.block_size st))) rd)
-        as [|m] eqn:Em; [lia|]. discriminate Hfirst.
-    - pose proof (Decomp.zlen_nonneg (Decomp.fp_rest st)). lia. }
-  lia.
-Qed.
-
-(* the contract instantiated: Copy terminates within (size + unread bytes + 1) iterations *)
-Theorem copy_worker_terminates L0 mb st size sched fuel :
-  0 < mb -> copy_inv L0 st size -> Forall (fun k => (0 < k)%nat) sched ->
-  Z.max size 0 + Decomp.zlen (Decomp.fp_rest st) + 1 <= Z.of_nat fuel ->
-  Decomp.worker_decompress Decomp.toy_dstep fuel st size mb sched <> Err EFuel.
-Proof.
-  intros Hmb HI Hs Hf.
-  apply (worker_terminates Decomp.toy_state Decomp.toy_dstep (copy_inv L0) (fun _ => 0%nat) 0 mb L0 Hmb).
-  - intros s z (Hb & _). exact Hb.
-  - intros s z rd s' out Hi Hz _ Hd _. exact (copy_inv_step L0 mb s z rd s' out Hi Hz Hd).
-  - intros s. lia.
-  - intros s z rd s' Hi Hz Hrd Hd _. exfalso. exact (copy_inv_progress L0 mb s z rd s' Hmb Hi Hz Hrd Hd).
-  - exact HI.
-  - exact Hs.
-  - change (Z.of_nat 0) with 0. lia.
-Qed.
-
-(* a concrete non-trivial state satisfying the invariant: 7 packed bytes, declared size 7,
-   5 of them wanted, block size 4, short reads allowed *)
-Example copy_inv_example :
-  copy_inv 7 (Decomp.toy_init [copy_st] [7] 7 4 [1; 2; 3; 4; 5; 6; 7]) 5.
-Proof.
-  unfold copy_inv, Decomp.toy_init. split; [apply Decomp.init_book_inv|].
-  split; [reflexivity|]. split; [exists 0, 7; cbn; repeat split; lia|].
-  cbn. lia.
-Qed.
-
-Example copy_worker_example :
-  Decomp.toy_worker 13 [copy_st] [7] 7 4 [1; 2; 3; 4; 5; 6; 7] 5 3 [1%nat; 2%nat] = Ok [1; 2; 3; 4; 5].
-Proof. vm_compute. reflexivity. Qed.
-
-Print Assumptions packpositions_superlinear.
-Print Assumptions names_steps_eof.
-Print Assumptions packed_indices_steps_worst.
-Print Assumptions worker_terminates.
-Print Assumptions header_loop_is_worker.
-Print Assumptions header_loop_spins.
-Print Assumptions header_loop_terminates.
-Print Assumptions toy_header_loop_spins.
-Print Assumptions copy_worker_terminates.
+Print Assumptions packpositions_linear.
+Print Assumptions names_steps_linear.
+Print Assumptions read_digest_iters_linear.
+Print Assumptions worker_guarded_terminates.
+Print Assumptions header_guarded_terminates.
+Print Assumptions worker_guarded_stuck_raises.
